@@ -407,6 +407,10 @@ func c04run(w *report.W) {
 	c04aliasRun(w, seamBound)
 	// keys whose expansion equals another key's original text: {"$$K": .., "$K": ..} at every map-backed position
 	c04chainRun(w, seamBound)
+	// a step string textually identical to a string of the pipeline env block: every block of 2 entries over the C10
+	// alphabets followed by steps repeating each name and value text; each step string is expanded once under the
+	// final environment (reference: C10's left fold), whatever the same text expanded to inside the block
+	c04repeatRun(w)
 	// maps of 9+ entries (beyond Go's small-map bucket)
 	big := docgen.Map()
 	for i := 0; i < 11; i++ {
@@ -414,6 +418,45 @@ func c04run(w *report.W) {
 	}
 	bigDoc := docgen.Map("steps", docgen.Seq(docgen.Map("command", docgen.Str("c"), "env", big.Clone(), "bigunknown", big.Clone(), "plugins", docgen.Seq(docgen.Map("./p", big.Clone())))), "top", big.Clone())
 	c04doc(w, "base big-maps", bigDoc, "json", 1)
+}
+
+func c04repeatRun(w *report.W) {
+	names := []string{"A", "B", "$N", "$A", "$$A"}
+	values := []string{"lit", "$A", "${B}", "$$A", "${A:-d}", "$RT", "p$A$B"}
+	callers := []map[string]string{{}, {"A": "ra"}, {"A": "ra", "RT": "rt", "N": "A"}, {"N": "B", "B": "rb"}}
+	opts := len(names) * len(values)
+	n := 0
+	for bi := 0; bi < opts*opts; bi++ {
+		block := [][2]string{{names[(bi%opts)/len(values)], values[(bi%opts)%len(values)]}, {names[(bi/opts)/len(values)], values[(bi/opts)%len(values)]}}
+		for _, caller := range callers {
+			for _, prefer := range []bool{false, true} {
+				c := c10case{Block: block, Caller: caller, Prefer: prefer, Impl: "own"}
+				cb, _ := json.Marshal(c)
+				if !w.Take("c04repeat|" + string(cb)) {
+					continue
+				}
+				n++
+				w.P.Evaluations++
+				want, coll := c10reference(c)
+				got, pan := c10real(c)
+				if pan != "" {
+					w.Violate(report.Violation{Kind: "panic", Case: "repeated text " + string(cb), Detail: pan, Size: 8})
+					continue
+				}
+				if coll || want.Err != "" || got.Err != "" {
+					w.Obs("repeat skipped (collision or error)")
+					continue
+				}
+				w.P.Nontrivial++
+				w.Obs("repeat compared")
+				if fmt.Sprint(got.Echo) != fmt.Sprint(want.Echo) || got.Probe != want.Probe {
+					w.Violate(report.Violation{Kind: "repeated-string-stale", Case: "env block + steps repeating its texts: " + string(cb),
+						Detail: fmt.Sprintf("step strings after Interpolate %q, want %q (each expanded once under the final environment)", got.Echo, want.Echo), Size: 8})
+				}
+			}
+		}
+	}
+	w.Count("repeated_text_cases", int64(n))
 }
 
 // c04chainRun: maps in which one key's expansion is another key's original text ("$$K" -> "$K", "$K" -> value).
@@ -537,7 +580,8 @@ func init() {
 			"whose subtrees are shared through YAML aliases and of a document with 11-entry maps is replaced by a unique marker `sNNN_${X}_$$Y_\\$Z`; Pipeline.Interpolate on the real code is compared with " +
 			"the single-pass expansion mapped over the generic JSON tree of the pipeline before the call (everything but `signature`), order included; a failing expansion `${U?boom}` is injected at every " +
 			"position in turn (must be reported, except inside signatures); the run is repeated under the map-iteration seam: every order and every renamed-key-revisited answer for maps <=3 entries, " +
-			"<=k deviations beyond. Non-trivial = more than three instrumented positions.",
+			"<=k deviations beyond. Repeated text: every 2-entry env block over 5 names x 7 values x 4 caller envs x the precedence flag followed by command steps whose text repeats each block name and value: " +
+			"every step string is expanded once under the final environment (C10's reference fold). Non-trivial = more than three instrumented positions.",
 		Assumptions: []string{
 			"single-string expansion is delegated to github.com/buildkite/interpolate in the reference",
 			"markers are unique, so no two keys expand to the same name (the statement is silent on collisions)",
